@@ -13,6 +13,7 @@ mod h_c05;
 mod h_c09;
 mod h_c10;
 mod h_c12;
+mod h_ps;
 mod h_zc;
 mod kit;
 
@@ -23,12 +24,18 @@ static GLOBAL: kit::QuarantineAlloc = kit::QuarantineAlloc;
 
 fn harnesses() -> Vec<Box<dyn Harness>> {
     vec![
+        Box::new(h_ps::PubSubHarness { ipc: false, prop: "C01" }),
+        Box::new(h_ps::PubSubHarness { ipc: true, prop: "C01" }),
+        Box::new(h_ps::PubSubHarness { ipc: false, prop: "C02" }),
+        Box::new(h_ps::PubSubHarness { ipc: true, prop: "C02" }),
         Box::new(h_c03::QueueHarness { kind: "iq" }),
         Box::new(h_c03::QueueHarness { kind: "oq" }),
         Box::new(h_c03::QueueHarness { kind: "q" }),
         Box::new(h_zc::ConnDataHarness),
         Box::new(h_c05::EventHarness { counting: false }),
         Box::new(h_c05::EventHarness { counting: true }),
+        Box::new(h_ps::PubSubHarness { ipc: false, prop: "C08" }),
+        Box::new(h_ps::PubSubHarness { ipc: true, prop: "C08" }),
         Box::new(h_c09::PoolHarness { kind: "uis" }),
         Box::new(h_c09::PoolHarness { kind: "robust" }),
         Box::new(h_c09::PoolHarness { kind: "alloc" }),
@@ -63,6 +70,7 @@ fn spec_for<'a>(hs: &'a [Box<dyn Harness>], prop: &'a str) -> CheckSpec<'a> {
         "C10" => "one evaluation = one simulated execution of 1..2 writer threads (generated add/remove/recover sequences with unique 32-byte self-checking records, capacity 1..3 so that slots are reused) racing a reader thread that refreshes its view 1..5 times; every view is judged against the add/remove history (torn, never added, removed before the refresh began, added before and missing), plus exactness at quiescence. distinct_nontrivial = distinct (plan, schedule/fault signature) pairs among runs with at least one context switch or injected fault",
         "C12" => "one evaluation = one simulated execution of a writer performing up to 6 updates (typed store or two-step write-cell update, value sizes 1..200 bytes, alignments 1..64, self-checking versioned payloads), an optional second thread competing for the producer role, and 1..2 readers loading 1..5 times; in sc+p1 runs the writer is preempted inside its plain copy. distinct_nontrivial = distinct (plan, schedule/fault signature) pairs among runs with at least one context switch or injected fault",
         "C13" => "one evaluation = one simulated execution of 2..3 threads issuing generated attach (matching or mismatching parameters) / detach / crash-and-forced-remove operations for the sender and receiver role of one connection name over process-local storage; role exclusivity, existence while attached, removal after the last detach and re-usability of the name are checked. distinct_nontrivial = distinct (plan, schedule/fault signature) pairs among runs with at least one context switch or injected fault",
+        "C01" | "C02" | "C08" => "one evaluation = one simulated history of 10..90 API calls (create/drop publisher and subscriber, loan, send, send_copy, drop loan, receive, drop sample, update_connections, has_samples, loan-to-exhaustion probe) on up to 3 publishers and 3 subscribers of one publish-subscribe service (local and ipc variants), QoS drawn per run (buffer 1..4, history 0..3, history request, max borrow 1..3, max loaned 1..3, overflow on/off, port limits 1..3), each call compared with a reference model of delivery/eviction/history/expired connections (C01), with canary payloads re-read after every call and loan-to-exhaustion probes (C02), and with the limit model (C08). Each run executes in a forked child of a warmed-up worker. distinct_nontrivial = distinct operation histories",
         "C09" => "one evaluation = one simulated execution of 2..3 threads doing generated acquire/release(/lock-if-last) sequences on a real index set or pool allocator of capacity 1..4, one run in four of the robust set kills a thread mid-operation and recovers its owner id; distinct_nontrivial = distinct (plan, schedule/fault signature) pairs among runs with at least one context switch or injected fault",
         _ => "one evaluation = one simulated execution of a generated scenario; distinct_nontrivial = distinct (plan, schedule/fault signature) pairs among runs with at least one context switch or injected fault",
     };
@@ -89,6 +97,15 @@ fn main() {
         pin_to_cpu(c);
     }
     iceoryx2_log::set_log_level(iceoryx2_log::LogLevel::Fatal);
+    // fatal messages of the code under test are outcomes (panics), not output
+    struct Quiet;
+    impl iceoryx2_log::Log for Quiet {
+        fn log(&self, _: iceoryx2_log::LogLevel, _: core::fmt::Arguments, _: core::fmt::Arguments) {}
+    }
+    static QUIET: Quiet = Quiet;
+    if std::env::var("VSIM_PANIC").is_err() {
+        iceoryx2_log::set_logger(&QUIET);
+    }
     let hs = harnesses();
     match args[1].as_str() {
         "--worker" => {
@@ -105,7 +122,7 @@ fn main() {
             let idx: u64 = args[4].parse().unwrap();
             let mode = args.get(5).map(|s| s.as_str());
             let (rs, _m, _d, plan, cfg) = derive_run(h, seed, idx, mode);
-            let r = h.execute(&plan, &cfg, iceoryx2_pal_concurrency_sync::sim::Decisions::Seeded(rs));
+            let r = execute(h, &plan, &cfg, iceoryx2_pal_concurrency_sync::sim::Decisions::Seeded(rs));
             println!("{:016x}", r.report.fingerprint);
             if std::env::var("VSIM_TRACE").is_ok() {
                 for l in &r.report.log_tail {
